@@ -33,6 +33,7 @@ structure Script where
   updTp : Option Rat := none
   onReducedSl : Option Rat := none
   liquidateAt : Option Nat := none
+  gate : Option Nat := none            -- entries only while the last candle of this timeframe (minutes) closed up
 deriving Repr, Inhabited
 
 structure Mem where
@@ -51,10 +52,19 @@ def scripted (scripts : List Script) : UserStrategy Mem :=
   let sc := fun (r : Nat) => scripts.getD r {}
   let fires := fun (s : Option EntrySpec) (i : Nat) =>
     match s with | some x => i % x.every = x.phase | none => false
+  -- `self.get_candles(exchange, symbol, tf)[-1]` closed at or above its open (no candle yet: no entry)
+  let gateOk := fun (e : E) (r : Nat) =>
+    match (sc r).gate with
+    | none => true
+    | some tf =>
+      let st := storeOf e (routeOf e r).sym
+      match Store.getCandles st.short (longOf st tf) tf with
+      | .ok cs => (match cs.getLast? with | some c => decide (c.c ≥ c.o) | none => false)
+      | .error _ => false
   { before := fun _ _ m => m
     after := fun _ _ m => m
-    shouldLong := fun e r _ => fires (sc r).long (idxOf e r)
-    shouldShort := fun e r _ => fires (sc r).short (idxOf e r) ∧ ¬ fires (sc r).long (idxOf e r)
+    shouldLong := fun e r _ => fires (sc r).long (idxOf e r) && gateOk e r
+    shouldShort := fun e r _ => decide (fires (sc r).short (idxOf e r) ∧ ¬ fires (sc r).long (idxOf e r)) && gateOk e r
     shouldCancelEntry := fun e r m =>
       match (sc r).cancelAfter with | some n => idxOf e r - m.enteredAt ≥ n | none => false
     goLong := fun e r _ d =>
@@ -159,8 +169,9 @@ def scriptP : P Script := do
   let utp ← optRatP
   let rsl ← optRatP
   let liq ← optNatP
+  let gate ← optNatP
   pure { long := long, short := short, cancelAfter := ca, onOpenSl := osl, onOpenTp := otp, updEvery := ue,
-         updSl := usl, updTp := utp, onReducedSl := rsl, liquidateAt := liq }
+         updSl := usl, updTp := utp, onReducedSl := rsl, liquidateAt := liq, gate := gate }
 
 def candleP : P Candle := do
   let t ← ratP; let o ← ratP; let c ← ratP; let h ← ratP; let l ← ratP; let v ← ratP
@@ -197,7 +208,7 @@ def sessionP : P Session := do
 def showOptR (o : Option Rat) : String := match o with | some r => showRat r | none => "_"
 
 def showEvent : Event → String
-  | .hook r n i p q => s!"HOOK {r} {n} {i} {showRat p} {showRat q}"
+  | .hook r n i p q pnl => s!"HOOK {r} {n} {i} {showRat p} {showRat q} {showRat pnl}"
   | .submit id sym side ty q p ro => s!"SUBMIT {id} {sym} {showSide side} {showOrderType ty} {showRat q} {showRat p} {if ro then 1 else 0}"
   | .reject k => s!"REJECT {k.name}"
   | .fill id t p q => s!"FILL {id} {t} {showRat p} {showRat q}"
